@@ -546,6 +546,9 @@ func aliasFields(m sdk.Msg, r *rand.Rand) {
 			}
 		default:
 			// a body that looks like a whole message
+			if len(x.Recipient) != 32 || len(x.DestinationCaller) != 32 {
+				return
+			}
 			in := &InMsg{Version: 0, Src: 4, Dst: x.DestinationDomain, Nonce: 1, Sender: x.Recipient, Recipient: x.Recipient, Caller: x.DestinationCaller, Body: []byte("nested")}
 			x.MessageBody = in.Bytes()
 		}
